@@ -166,7 +166,7 @@ Definition router_send_multipart (mandatory manual : bool) (conn : uri -> conn_s
       | _ =>
           match fget (snd idm) m with
           | None => (m, if mandatory then SUnreachable else SDropped)
-          | Some (u, s) =>
+          | Some (u, s, _) =>
               match conn u with
               | CGone => (remove_peer_by_identity hint (snd idm) m, if mandatory then SUnreachable else SDropped)
               | CClosed => (m, if mandatory then SUnreachable else SDropped)
@@ -197,7 +197,7 @@ Definition router_send_part (mandatory manual : bool) (conn : uri -> conn_state)
            | _ =>
                match fget (snd f) m with
                | None => ((m, None), if mandatory then PUnreachable else PDropped)
-               | Some (u, _) =>
+               | Some (u, _, _) =>
                    match conn u with
                    | CGone => ((remove_peer_by_identity hint (snd f) m, None),
                                if mandatory then PUnreachable else PDropped)
